@@ -312,10 +312,10 @@ class Gen:
 
     def piece(self, n):
         """distinguishable NUL- and %-free bytes"""
-        out = []
-        for _ in range(n):
-            out.append(LIT[self.ctr % len(LIT)])
-            self.ctr += 1
+        k = len(LIT)
+        st = self.ctr % k
+        out = (LIT * ((st + n) // k + 1))[st:st + n]      # same bytes as one-by-one, fast for 65537-byte pieces
+        self.ctr += n
         return out
 
     def target_len(self, room, big=True):
@@ -325,6 +325,10 @@ class Gen:
             c += [room - 1, room, room + 1, room, room + 1, room - 1, room + 2]
         if big:
             c += [62, 63, 64, 65, 200]
+            if r.random() < 0.06:
+                c = [255, 256, 257, 300, 319, 320, 511, 512, 513, 575, 576]
+                if room is not None:
+                    c += [256 + room - 1, 256 + room, 256 + room + 1, 512 + room, 512 + room + 1]
         n = r.choice(c)
         return max(0, n)
 
@@ -452,10 +456,124 @@ def boundary_cases():
     return out
 
 
+# ---- lengths around the representation boundaries of the size arithmetic ('length-wraps') ----------
+# A piece length n that is narrowed somewhere (uint8_t tag arithmetic of the inline buffer, a 16/32-bit
+# temporary, int n of vsnprintf) behaves differently only when n >= 2^8 / 2^16 / .. AND the low part of n
+# fits the remaining room, so every length is tried absolutely and relative to the room that is left.
+WRAP_ABS = [255, 256, 257, 318, 319, 320, 511, 512, 513, 575, 576, 1000, 4095, 4096, 4097, 65535, 65536, 65537]
+WRAP_FLAVOURS = ['bytes', 'cstr', 'run', 'resize', 'fmt-lit', 'fmt-s', 'fmt-pre-s', 'fmt-d', 'fmt-c', 'fmt-pct']
+WRAP_FEW = ['bytes', 'run', 'resize', 'fmt-s', 'fmt-d']
+HEAVY = 8000      # texts longer than this: few cases, and never a case of <= 400 integers (the driver's vm_compute
+                  # sample takes those; Coq's printer overflows its stack on a 65537-element list)
+
+
+def wrap_case(g, kind, cap, ini, used, L, flavour):
+    """<= 3 ops: [bring the builder to `used` chars]; ONE piece of length L in the given flavour; a short append"""
+    ops = []
+    if used and flavour != 'fmt-pre-s':
+        ops.append((1, g.piece(used)))
+    if flavour == 'bytes':
+        ops.append((1, g.piece(L)))
+    elif flavour == 'cstr':
+        ops.append((2, g.piece(L)))
+    elif flavour == 'run':
+        ops.append((3, L, 120))
+    elif flavour == 'resize':
+        ops.append((7, len(ini) + used + L, 35))
+    elif flavour == 'fmt-lit':
+        ops.append((6, g.piece(L), 0, None, []))
+    elif flavour == 'fmt-s':
+        ops.append((6, [], 1, g.piece(L), []))
+    elif flavour == 'fmt-pre-s':          # the literal prefix is appended by appendFormat itself, then the %s body of length L
+        ops.append((6, g.piece(used), 1, g.piece(max(0, L - 2)), g.piece(min(L, 2))))
+    elif flavour == 'fmt-d':
+        ops.append((6, [], 2, -7, g.piece(max(0, L - 2))))
+    elif flavour == 'fmt-c':
+        ops.append((6, [], 4, 65, g.piece(max(0, L - 1))))
+    else:
+        ops.append((6, [], 3, None, g.piece(max(0, L - 1))))
+    text = len(ini) + used + L if kind != 2 else min(len(ini) + used + L, max(cap - 1, 0))
+    short = len(encode(kind, cap, ini, ops)) <= 398
+    if text > HEAVY and short:
+        ops.append((1, g.piece(401)))      # keeps the case out of the vm_compute sample (see HEAVY)
+    elif text <= HEAVY:
+        ops.append((1, g.piece(1)))        # the builder goes on from the right text
+    return encode(kind, cap, ini, ops)
+
+
+def length_wrap_cases():
+    g = Gen(random.Random(17))
+    seen = set()
+    out = []
+
+    def add(kind, cap, ini, used, L, flavours):
+        if L < 0:
+            return
+        for f in flavours:
+            key = (kind, cap, len(ini), used, L, f)
+            if key not in seen:
+                seen.add(key)
+                out.append(wrap_case(g, kind, cap, ini, used, L, f))
+
+    for L in WRAP_ABS:
+        if L < 4000:
+            for u in (0, 7):
+                add(0, 0, [], u, L, WRAP_FLAVOURS)
+            for il in (0, 5):
+                add(1, 0, g.piece(il), 0, L, WRAP_FLAVOURS)
+            for cap, u in ((8, 0), (64, 3), (L, 0), (L + 1, 0), (L + 2, 0)):
+                add(2, cap, [], u, L, WRAP_FLAVOURS)
+            for cap, u in ((0, 0), (1, 0), (8, 0), (64, 0), (64, 3)):
+                add(3, cap, [], u, L, WRAP_FLAVOURS)
+        elif L < 60000:
+            for u in (0, 7):
+                add(0, 0, [], u, L, WRAP_FLAVOURS)
+            add(1, 0, [], 0, L, WRAP_FLAVOURS)
+            add(2, L + 1, [], 0, L, WRAP_FEW)
+            add(2, 64, [], 3, L, WRAP_FLAVOURS)
+            add(3, 8, [], 0, L, WRAP_FLAVOURS)
+        else:
+            add(0, 0, [], 0, L, WRAP_FLAVOURS)
+            add(0, 0, [], 7, L, ['bytes', 'run'])
+            add(1, 0, [], 0, L, ['run', 'resize', 'fmt-s'])
+            add(2, L + 1, [], 0, L, ['bytes', 'run', 'fmt-s'])
+            add(2, 64, [], 3, L, WRAP_FLAVOURS)
+            add(3, 8, [], 0, L, ['bytes', 'run', 'resize', 'fmt-s'])
+    # relative to the room that is left: 256*j + room (+-1); room = 63 - used inline, cap - 1 - used in an array
+    for j in (1, 2, 16, 256):
+        for d in (-1, 0, 1):
+            for u in (0, 1, 7, 62, 63):
+                L = 256 * j + (SBO - u) + d
+                if j < 256:
+                    add(0, 0, [], u, L, WRAP_FLAVOURS)
+                elif u in (0, 63):
+                    add(0, 0, [], u, L, ['bytes', 'run'])
+            for cap in (1, 8, 64):
+                for u in sorted({0, cap - 1}):
+                    L = 256 * j + (cap - 1 - u) + d
+                    if j < 256:
+                        add(3, cap, [], u, L, WRAP_FEW)
+                        add(2, cap, [], u, L, WRAP_FEW)
+                    elif cap == 8:
+                        add(3, cap, [], u, L, ['bytes', 'run'])
+                        add(2, cap, [], u, L, ['bytes', 'run'])
+    # fixed array: run / resize lengths are never materialised, so the 2^16 / 2^32 / 2^63 neighbourhoods are cheap
+    for cap, u in ((8, 0), (8, 3), (64, 0), (300, 7)):
+        room = cap - 1 - u
+        for base in (2 ** 16, 2 ** 31, 2 ** 32, 2 ** 63):
+            for d in (-1, 0, 1):
+                add(2, cap, [], u, base + room + d, ['run', 'resize'])
+                add(2, cap, [], u, base + d, ['run', 'resize'])
+    return out
+
+
 def gen(seed, tier):
     rnd = random.Random(seed * 1000003 + 17)
     total = {'quick': 6000, 'thorough': 300000, 'search': 6000}.get(tier, 6000)
     out = [(c, {'kind': 'boundary-' + k.rsplit('-cap', 1)[0] if '-cap' in k else 'boundary-' + k}) for c, k in boundary_cases()]
+    wraps = length_wrap_cases()
+    out += [(c, {'kind': 'length-wraps'}) for c in wraps]
+    total += len(wraps)               # on top of the random stream, not instead of it
     g = Gen(rnd)
     while len(out) < total:
         kind = rnd.choice([0, 1, 2, 2, 2, 3, 3])
